@@ -6,20 +6,21 @@ import (
 	"testing"
 
 	"metacontroller/pkg/apis/metacontroller/v1alpha1"
+	"metacontroller/pkg/internal/verif/kit"
 	"metacontroller/pkg/internal/verif/sim"
 	"metacontroller/pkg/internal/verif/world"
 )
 
 func TestVerifSmoke(t *testing.T) {
-	w := newCWorld(ccOpt{parent: kThing, children: []*sim.Kind{kLeaf}, generateSel: true,
+	w := newCWorld(ccOpt{parent: kit.Thing, children: []*sim.Kind{kit.Leaf}, generateSel: true,
 		methods: map[string]v1alpha1.ChildUpdateMethod{"leafs": v1alpha1.ChildUpdateInPlace}}, true)
 	w.Hooks.Handle("/cc/sync", world.JSON(func(req map[string]interface{}) interface{} {
 		return map[string]interface{}{
 			"status":   map[string]interface{}{"n": int64(1)},
-			"children": []interface{}{withField(obj(kLeaf, "", "a"), "1", "data", "v")},
+			"children": []interface{}{kit.Field(kit.Obj(kit.Leaf, "", "a"), "1", "data", "v")},
 		}
 	}))
-	w.Sim.Seed(obj(kThing, "n1", "p"))
+	w.Sim.Seed(kit.Obj(kit.Thing, "n1", "p"))
 	w.DeliverAll()
 	t.Logf("queue: %v", w.Q.Items())
 	for i := 0; i < 3; i++ {
